@@ -473,6 +473,8 @@ impl WalRecord {
 pub struct Wal {
     path: PathBuf,
     file: Option<File>,
+    /// Offset of the `BeginTx` of the transaction that is being appended and not yet synced.
+    tx_start: Option<u64>,
 }
 
 impl Wal {
@@ -487,6 +489,7 @@ impl Wal {
         Ok(Self {
             path,
             file: Some(file),
+            tx_start: None,
         })
     }
 
@@ -504,7 +507,20 @@ impl Wal {
         let crc = crc32(&body);
 
         let offset = file.metadata()?.len();
+        if matches!(record, WalRecord::BeginTx { .. }) {
+            self.tx_start = Some(offset);
+        }
         file.seek(SeekFrom::End(0))?;
+        if let Err(e) = Self::write_record(file, len, crc, &body) {
+            // Never leave a partial record (or half a failed transaction) behind: whatever is
+            // appended after it would be unreachable for recovery.
+            let _ = file.set_len(self.tx_start.take().unwrap_or(offset));
+            return Err(e);
+        }
+        Ok(offset)
+    }
+
+    fn write_record(file: &mut File, len: u32, crc: u32, body: &[u8]) -> Result<()> {
         #[cfg(nervusdb_verif)]
         crate::verif_hooks::io_before("write", "wal.append.len", Some(&*file), None)?;
         file.write_all(&len.to_le_bytes())?;
@@ -517,17 +533,30 @@ impl Wal {
         crate::verif_hooks::io_after("write", "wal.append.crc", Some(&*file), None);
         #[cfg(nervusdb_verif)]
         crate::verif_hooks::io_before("write", "wal.append.body", Some(&*file), None)?;
-        file.write_all(&body)?;
+        file.write_all(body)?;
         #[cfg(nervusdb_verif)]
         crate::verif_hooks::io_after("write", "wal.append.body", Some(&*file), None);
         file.flush()?;
-        Ok(offset)
+        Ok(())
     }
 
     pub fn fsync(&mut self) -> Result<()> {
         let Some(file) = self.file.as_mut() else {
             return Err(Error::WalProtocol("wal file is closed"));
         };
+        if let Err(e) = Self::sync_file(file) {
+            // The caller reports this transaction as failed, so it must not resurface at the
+            // next recovery (and collide with the ids the following transactions hand out).
+            if let Some(start) = self.tx_start.take() {
+                let _ = file.set_len(start);
+            }
+            return Err(e);
+        }
+        self.tx_start = None;
+        Ok(())
+    }
+
+    fn sync_file(file: &mut File) -> Result<()> {
         #[cfg(nervusdb_verif)]
         crate::verif_hooks::io_before("sync", "wal.fsync", Some(&*file), None)?;
         file.sync_data()?;
